@@ -19,6 +19,7 @@ From ClapModel Require Import Parse.Cmd Parse.Build Parse.Valid Parse.Matcher Pa
 From ClapModel Require Import ParseProofs.Safe ParseProofs.Invariant ParseProofs.Totality
                               ParseProofs.Relations ParseProofs.ValidateTotal ParseProofs.TotalityMain
                               ParseProofs.FlagSubClass ParseProofs.FsInvariant.
+From ClapModel Require ParseProofs.Sites.
 From Coq Require Import ZArith Lia.
 From RecordUpdate Require Import RecordSet.
 Import RecordSetNotations.
@@ -320,6 +321,13 @@ Proof.
   destruct (c_bin_name c0); [apply do_parse_total_fs; assumption|].
   destruct (utf8_valid bin && negb (is_nil bin)); [|apply do_parse_total_fs; assumption].
   apply do_parse_total_fs; [apply Hcb|apply Hvb].
+Qed.
+
+(** the rows [Modelled l] of the panic-site table (ParseProofs/Sites.v) are dead for the class as well *)
+Theorem sites_dead_fs c0 toks : flag_sub_class c0 = true -> valid c0 = true ->
+  forall n, In n Sites.modelled_sites -> do_parse c0 toks <> OPanicked n.
+Proof.
+  intros Hc Hv n _ H. pose proof (do_parse_total_fs c0 toks Hc Hv) as T. rewrite H in T. exact T.
 Qed.
 
 (** * every [plain] definition is in the class *)
